@@ -698,6 +698,9 @@ class PortProtocol(_DeviceIdFilterMixin, _BaseProtocol):
         assert gap_duration == DEFAULT_GAP_DURATION
         assert 0 <= num_repeats <= 3  # if QoS, only Tx x1, with no repeats
 
+        if priority is None:  # e.g. from entity_base._async_send_cmd() (binding)
+            priority = Priority.DEFAULT  # type: ignore[unreachable]
+
         if qos and not self._context:
             _LOGGER.warning(f"{cmd} < QoS is currently disabled by this Protocol")
 
